@@ -11,7 +11,7 @@ exact.<framing>.<req> the real client transaction (transaction manager execute/_
 import z3
 
 from engine import pysym
-from engine.hlib import assume, same, explain, known, in_witness, crc16
+from engine.hlib import lohi, assume, same, explain, known, in_witness, crc16
 from engine.obl import Obl
 from engine.pysym import Obj, Prover, Unsupported
 from harness.clientlib import make_client
@@ -142,7 +142,7 @@ def make_exact(framing, rname, qtys):
             if framing == "binary":
                 own = bytes([resp.function_code]) + resp.encode()
                 c = crc16(bytes([unit]) + own)
-                hit = (unit == 0x7B) | (unit == 0x7D) | (c % 256 == 0x7B) | (c % 256 == 0x7D) | (c // 256 == 0x7B) | (c // 256 == 0x7D)
+                hit = (unit == 0x7B) | (unit == 0x7D) | (lohi(c)[0] == 0x7B) | (lohi(c)[0] == 0x7D) | (lohi(c)[1] == 0x7B) | (lohi(c)[1] == 0x7D)
                 for i in range(len(own)):
                     hit = hit | (own[i] == 0x7B) | (own[i] == 0x7D)
                 assume(not hit)                          # C03's known finding KF-binary-delimiters
